@@ -155,4 +155,70 @@ theorem sha256_any_split (p0 : List UInt8) (parts : List (List UInt8))
 example : ((ShaHasher.update {} [1, 2]).update [3]).checksum = (ShaHasher.update {} [1, 2, 3]).checksum :=
   sha256_any_split [1, 2] [[3]] (by decide)
 
+theorem be64_length (v : Nat) : (be64 v).length = 8 := by simp [be64]
+
+/-- the abstract state of a fresh hasher after one `update x` -/
+theorem sha_fresh_update_abs (x : List UInt8) :
+    (ShaHasher.update {} x).abs =
+      { len := x.length % 18446744073709551616, ovf := false,
+        h := (shaUpBlocks shaInit x).1, pending := (shaUpBlocks shaInit x).2 } := by
+  rw [(sha_update_abs {} x sha_init_inv).1]
+  simp [ShaHasher.abs, ShaAbs.update, shaH0]
+
+/-- **The buffering + padding state machine computes FIPS 180-4 SHA-256** (relative to the compression
+    function): one `update` with the whole message, then `checksum`, is `sha256Spec`. -/
+theorem sha256_checksum_eq_spec (x : List UInt8) :
+    (ShaHasher.update {} x).checksum = sha256Spec x := by
+  have hinv := (sha_update_abs {} x sha_init_inv).2
+  rw [sha_checksum_abs _ hinv, sha_fresh_update_abs]
+  unfold shaAbsChecksum sha256Spec shaPad
+  simp only []
+  have hp := shaUpBlocks_rem' shaInit x
+  generalize hr : shaUpBlocks shaInit x = r at hp
+  obtain ⟨h, p⟩ := r
+  simp only at hp ⊢
+  have hlen8 : (x.length % 18446744073709551616 * 8) % 18446744073709551616
+      = (x.length * 8) % 18446744073709551616 := by omega
+  rw [hlen8]
+  generalize hL : be64 ((x.length * 8) % 18446744073709551616) = L
+  have hL8 : L.length = 8 := by rw [← hL]; exact be64_length _
+  -- absorb the message first, then the padding
+  have hx : x ++ [0x80] ++ List.replicate ((119 - x.length % 64) % 64) 0 ++ L
+      = x ++ ([0x80] ++ (List.replicate ((119 - x.length % 64) % 64) 0 ++ L)) := by
+    simp only [List.append_assoc]
+  rw [hx, shaUpBlocks_append' shaInit x, hr]
+  simp only []
+  by_cases h56 : p.length < 56
+  · simp only [h56, ↓reduceIte]
+    have hk : (119 - x.length % 64) % 64 = 55 - p.length := by omega
+    rw [hk]
+    have hlen : (p ++ ([0x80] ++ (List.replicate (55 - p.length) 0 ++ L))).length = 64 := by
+      simp only [List.length_append, List.length_cons, List.length_nil, List.length_replicate]; omega
+    rw [shaUpBlocks_ge _ _ (by omega), List.take_of_length_le (by omega), List.drop_of_length_le (by omega),
+      shaUpBlocks_lt _ [] (by simp)]
+    simp only [List.append_assoc]
+  · simp only [h56, ↓reduceIte]
+    have hk : (119 - x.length % 64) % 64 = (63 - p.length) + 56 := by omega
+    rw [hk, ← List.replicate_append_replicate]
+    have hA : (p ++ [0x80] ++ List.replicate (63 - p.length) (0 : UInt8)).length = 64 := by
+      simp only [List.length_append, List.length_cons, List.length_nil, List.length_replicate]; omega
+    have hsplit : p ++ ([0x80] ++ (List.replicate (63 - p.length) 0 ++ List.replicate 56 0 ++ L))
+        = (p ++ [0x80] ++ List.replicate (63 - p.length) 0) ++ (List.replicate 56 0 ++ L) := by
+      simp only [List.append_assoc]
+    rw [hsplit, shaUpBlocks_append' h _ _]
+    rw [shaUpBlocks_ge h _ (by omega), List.take_of_length_le (by omega), List.drop_of_length_le (by omega),
+      shaUpBlocks_lt _ [] (by simp)]
+    simp only [List.nil_append]
+    have hB : (List.replicate 56 (0 : UInt8) ++ L).length = 64 := by
+      simp only [List.length_append, List.length_replicate]; omega
+    rw [shaUpBlocks_ge _ _ (by omega), List.take_of_length_le (by omega), List.drop_of_length_le (by omega),
+      shaUpBlocks_lt _ [] (by simp)]
+
+/-- **sha256, however the bytes are split** (at least one call): the digest equals the FIPS 180-4 structure
+    (padding, 64-byte blocks) over the compression function. -/
+theorem sha256_any_split_eq_spec (p0 : List UInt8) (parts : List (List UInt8))
+    (hlen : (p0 :: parts).flatten.length < 18446744073709551616) :
+    ((p0 :: parts).foldl ShaHasher.update {}).checksum = sha256Spec (p0 :: parts).flatten := by
+  rw [sha256_any_split p0 parts hlen, sha256_checksum_eq_spec]
+
 end WuffsVerif.Props.C07
